@@ -17,93 +17,93 @@ def add(pid, pkg, level, qn, tn, module="harness", **kw):
             c[k] = kw[k]
     CHECKS[pid] = c
 
-add("C20", "c20", "exploration", 400, 4000, exhaustive_if=["FuncsExhaustive"],
+add("C20", "c20", "exploration", 1000, 4000, exhaustive_if=["FuncsExhaustive"],
     assumptions=["reflection finds every function field of Funcs (fields of func type whose name ends in '_')",
                  "sentinel arguments/results: delegation is judged by identity of what the recorder saw and returned"])
 
-add("C17", "c17", "exploration", 2500, 60000,
+add("C17", "c17", "exploration", 8000, 80000,
     assumptions=["the reference grammar in c17_test.go transcribes the grammar documented in ociref/reference.go and the OCI tag grammar; registered digest algorithms are sha256/384/512",
                  "router agreement is observed through ociserver.ServeHTTP with a recording backend (internal/ocirequest is not importable)"])
 
-add("C02", "c02", "exploration", 1000, 12000,
+add("C02", "c02", "exploration", 2500, 20000,
     t={"require": ["ev:dangling-tag-read", "ev:referrers-nonempty", "ev:repush-after-delete", "ev:wrong-offset-write", "ev:immutable-refusal", "ev:mount-ok", "ev:commit-ok"]},
     assumptions=["reference model internal/model transcribes interface.go's documented semantics; tolerances: a repository without content may be NAME_UNKNOWN or empty, a dangling tag may resolve or be MANIFEST_UNKNOWN, rejection of a malformed manifest may carry any error code (none is documented)",
                  "artifactType filter always empty (filtering is a documented TODO)"])
 
-add("C03", "c03", "exploration", 200, 4000,
+add("C03", "c03", "exploration", 600, 6000,
     assumptions=["real loopback HTTP (httptest servers, one http.Transport per hop)",
                  "well-formed repository names and tags only (the client rejects malformed ones locally)",
                  "tolerated by construction: degenerate ranges (only 'no wrong bytes'), mount size 0 over HTTP, HEAD-based resolves compared by status class, un-coded == UNKNOWN, repositories without content may be unknown or empty, a declared size that disagrees with the content is refused by net/http itself (no OCI code), BlobWriter.Cancel and wrong-offset resumes are not part of the differential (C04 covers the latter)"])
 
-add("C04", "c04", "exploration", 800, 20000,
+add("C04", "c04", "exploration", 2500, 25000,
     t={"require": ["wrong-offset-probe", "resume-minus1", "resume-explicit", "wrong-digest", "len=1"]},
     assumptions=["real loopback HTTP; every hop's transport is tapped to observe the 416 status",
                  "resume with offset -1 when exactly one byte has been received is excluded (stated in the property)",
                  "a wrong-offset resume that is itself refused (no data sent) counts as a refusal with any error"])
 
-add("C01", "c01", "exploration", 300, 6000,
+add("C01", "c01", "exploration", 1000, 8000,
     assumptions=["own sha256 and an independent (repo,digest)->bytes map are the oracle",
                  "degenerate ranges (o1 >= 0 and o1 <= o0, or o0 beyond the end) may fail or return the exact empty slice; range reads are not digest-verified by the client (documented), so only complete reads must fail on corruption",
                  "corruptions are applied by a RoundTripper between client and server; net/http itself is trusted"])
 
-add("C05", "c05", "exploration", 600, 12000,
+add("C05", "c05", "exploration", 2000, 20000,
     t={"require": ["multi-page", "start-after", "fault-below", "iterated-twice", "kind:referrers"]},
     assumptions=["real loopback HTTP for http layers", "artifactType filter always empty (documented TODO)",
                  "with a failing layer below, delivered items must be expected items in ascending order and the iteration must end with an error; the exact prefix is not prescribed"])
 
-add("C12", "c12", "exploration", 1500, 40000, exhaustive_if=["FilterWrappersExhaustive2Repos"],
+add("C12", "c12", "exploration", 5000, 50000, exhaustive_if=["FilterWrappersExhaustive2Repos"],
     assumptions=["policies are pure functions of (name, access kind) as the property states", "backend is a recorder that accepts every call"])
 
-add("C13", "c13", "exploration", 500, 10000,
+add("C13", "c13", "exploration", 2000, 15000,
     assumptions=["the restricted registry is played by a second ocimem driven with the unprefixed names", "registries treat repository names as opaque strings (a name with dot segments is passed below the prefix verbatim and rejected or not found there)"])
 
-add("C14", "c14", "exploration", 500, 8000,
+add("C14", "c14", "exploration", 800, 10000,
     assumptions=["sequential histories here; the concurrent part of the immutable-tags claim is exercised by the C08 workloads (ledger invariant under -race)",
                  "child descriptors are truthful about media types (a descriptor whose media type disagrees with the stored manifest is outside the generated domain)",
                  "subjects are not part of the closure (a subject may dangle from the start)"])
 
-add("C15", "c15", "exploration", 300, 6000,
+add("C15", "c15", "exploration", 500, 6000,
     assumptions=["members are ocimem registries (their own semantics are C02's business); expected union results are computed from the members' own answers",
                  "answer order under the concurrent policy is steered with a delay wrapper (exact schedules are C16's business)"])
 
-add("C09", "c09", "exploration", 1500, 40000, exhaustive_if=["ScopePairsSmallUniverse", "ScopeSetsSmallUniverse"],
+add("C09", "c09", "exploration", 4000, 40000, exhaustive_if=["ScopePairsSmallUniverse", "ScopeSetsSmallUniverse"],
     assumptions=["the naive model is a Go map keyed by the triple; the documented scope syntax (space-separated type:resource:action[,action]) is transcribed in modelParse",
                  "Len on the unlimited scope panics by documentation and is not called"])
 
-add("C19", "c19", "exploration", 1000, 30000,
+add("C19", "c19", "exploration", 4000, 40000,
     assumptions=["helpers are simulated by a HelperRunner function (the exec-based runner is not exercised)", "the reference precedence function in c19_test.go transcribes the property statement"])
 
-add("C07", "c07", "exploration", 400, 10000, exhaustive_if=[],
+add("C07", "c07", "exploration", 1500, 12000, exhaustive_if=[],
     assumptions=["real loopback HTTP, one httptest server per hop, statuses observed by a tap transport on every hop",
                  "multi-%w joins are not generated (MarshalError documents that it picks one); error bodies stay below the client's documented 8 KiB limit",
                  "BlobWriter methods are not carriers (the property names Interface methods)"])
 
-add("C06", "c06", "exploration", 3000, 100000,
+add("C06", "c06", "exploration", 10000, 150000,
     assumptions=["the handler is driven in-process (ServeHTTP + httptest.ResponseRecorder) so net/http's own request sanitising is bypassed: strictly more hostile than the wire",
                  "a 500 with code UNKNOWN is conformant by the statement (status agrees with the code) and is not flagged",
                  "backend is ocimem behind a recording wrapper; backend-side inconsistencies are not injected here"])
 
-add("C18", "c18", "exploration", 3000, 60000,
+add("C18", "c18", "exploration", 10000, 100000,
     assumptions=["responses are served by a scripted RoundTripper that always sets Response.Request (as a real transport does) and fails every request once the script is exhausted: that makes 'the server's answers are finite' concrete",
                  "a call that has not returned after 10 s is reported as looping without progress (normal calls take microseconds)"])
 
-add("C16", "c16", "exploration", 1000, 20000, module="harness26", toolchain="go1.26.8", exhaustive_if=["UnifyConcurrentSchedules"], qshards=8, tshards=16,
+add("C16", "c16", "exploration", 3000, 30000, module="harness26", toolchain="go1.26.8", exhaustive_if=["UnifyConcurrentSchedules"], qshards=8, tshards=16,
     assumptions=["go1.26.8 testing/synctest: every event of an enumerated schedule is separated from the next by synctest.Wait, so the order is exact",
                  "members are scripted fakes (they answer when told, or only once their context is cancelled)",
                  "a leaked goroutine makes the runtime abort the process when the bubble ends: the failure is persisted before that and the driver reports it"])
 
-add("C10", "c10", "exploration", 2000, 60000, module="harness26", toolchain="go1.26.8",
+add("C10", "c10", "exploration", 6000, 80000, module="harness26", toolchain="go1.26.8",
     assumptions=["go1.26.8 testing/synctest: time.Now inside ociauth is virtual, so expiry boundaries are exact",
                  "the registry and token servers are an in-memory fake world (harness26/authworld) that grants exactly the scope it is asked for or refuses; tokens are self-describing",
                  "tokens with less than the documented 1 s margin left may be reused or refreshed (the margin is a mechanism, not part of the statement)",
                  "concurrent batches assert only the order-independent invariants (own / unexpired tokens)"])
 
-add("C11", "c11", "exploration", 2000, 60000, module="harness26", toolchain="go1.26.8",
+add("C11", "c11", "exploration", 6000, 80000, module="harness26", toolchain="go1.26.8",
     assumptions=["in-memory fake world of registries and token servers (harness26/authworld); secrets are unique strings searched in every outgoing request (also base64- and URL-decoded)",
                  "a destination counts as 'named by the registry' when its host appears in a challenge header that registry has already sent",
                  "redirecting token realms (3xx with Location) are outside the stated fault set"])
 
-add("C08", "c08", "exploration", 40, 1500, race=True, qshards=8, tshards=16, qtimeout=900, ttimeout=3400,
+add("C08", "c08", "exploration", 100, 1500, race=True, qshards=8, tshards=16, qtimeout=900, ttimeout=3400,
     assumptions=["the Go scheduler is not under the harness's control: interleavings are sampled by running many generated workloads and directed racing loops under the race detector; a failing history is saved verbatim because re-execution need not reproduce it",
                  "linearizability is decided by porcupine against internal/model (the C02 reference model); checks that exceed 4 s are counted as inconclusive, never as violations",
                  "over HTTP only the race detector and the content/digest invariant are in force"])
